@@ -130,7 +130,14 @@ pub enum POp {
     /// ask for a block template now, seal it, feed it to the chain stages
     Mine,
     /// the model builds a competing branch of `len` blocks on the ancestor `back` blocks below the tip
-    Fork { back: u64, len: u64, seed: u64 },
+    Fork {
+        back: u64,
+        len: u64,
+        seed: u64,
+        /// the branch proposes and commits nothing
+        #[serde(default, skip_serializing_if = "std::ops::Not::not")]
+        quiet: bool,
+    },
     /// remove scenario tx t from the pool (RPC remove_transaction)
     Remove { t: usize },
     /// advance the simulated clock
@@ -330,9 +337,9 @@ pub fn generate(seed: u64, prop: &str) -> PoolScenario {
             5 => ops.push(POp::Mine),
             6 => {
                 if r.chance(1, 4) {
-                    ops.push(POp::Fork { back: r.range(1, 30), len: 0, seed: r.below(1 << 40) });
+                    ops.push(POp::Fork { back: r.range(1, 30), len: 0, seed: r.below(1 << 40), quiet: false });
                 } else {
-                    ops.push(POp::Fork { back: r.range(1, 4), len: r.range(1, 5), seed: r.below(1 << 40) });
+                    ops.push(POp::Fork { back: r.range(1, 4), len: r.range(1, 5), seed: r.below(1 << 40), quiet: false });
                 }
             }
             7 => {
@@ -368,7 +375,7 @@ pub fn generate(seed: u64, prop: &str) -> PoolScenario {
             }
         }
         sk.push(POp::Quiesce);
-        sk.push(POp::Fork { back: r.range(1, mines), len: r.range(1, 3), seed: r.below(1 << 40) });
+        sk.push(POp::Fork { back: r.range(1, mines), len: r.range(1, 3), seed: r.below(1 << 40), quiet: false });
         if r.chance(1, 2) && !clean_detach {
             sk.push(POp::Poll { k: r.idx(8) });
             sk.push(POp::Submit { t: r.idx(ntx), remote: false });
@@ -427,7 +434,7 @@ pub fn generate(seed: u64, prop: &str) -> PoolScenario {
         }
         sk.push(POp::Remove { t: b });
         sk.push(POp::Quiesce);
-        sk.push(POp::Fork { back: mines + r.range(0, 1), len: r.range(1, 3), seed: r.below(1 << 40) });
+        sk.push(POp::Fork { back: mines + r.range(0, 1), len: r.range(1, 3), seed: r.below(1 << 40), quiet: false });
         sk.push(POp::Take);
         sk.push(POp::PollKind { kind: "reorg".into() });
         sk.push(POp::Submit { t: b, remote: false });
@@ -470,7 +477,7 @@ pub fn generate(seed: u64, prop: &str) -> PoolScenario {
         let n_epoch1 = cfg.w_far - 3 + rp.range(0, 2);
         sk.push(POp::Quiet { n: n_epoch1, ts_delta: 3_000, propose: None, seed: rp.below(1 << 40) });
         sk.push(POp::Quiesce);
-        sk.push(POp::Fork { back: 1 + n_epoch1, len: 0, seed: rp.below(1 << 40) });
+        sk.push(POp::Fork { back: 1 + n_epoch1, len: 0, seed: rp.below(1 << 40), quiet: true });
         if rp.chance(1, 3) {
             sk.push(POp::Take);
             sk.push(POp::Poll { k: rp.idx(8) });
@@ -1276,9 +1283,9 @@ impl PoolExec {
                 self.il.write_u64(6);
                 self.mine();
             }
-            POp::Fork { back, len, seed } => {
+            POp::Fork { back, len, seed, quiet } => {
                 self.il.write_u64(7);
-                self.fork(*back, *len, *seed);
+                self.fork(*back, *len, *seed, *quiet);
             }
             POp::Remove { t } => {
                 self.il.write_u64(8);
@@ -1534,7 +1541,7 @@ impl PoolExec {
     }
 
     /// a model-built competing branch that overtakes the tip
-    fn fork(&mut self, back: u64, len: u64, seed: u64) {
+    fn fork(&mut self, back: u64, len: u64, seed: u64, quiet: bool) {
         let chain = self.w.st(self.tip_idx).chain.clone();
         let tipn = chain.len() as u64 - 1;
         // len == 0: a fast-paced branch that leaves the main chain inside the genesis epoch, so that
@@ -1557,8 +1564,8 @@ impl PoolExec {
                 ts_delta: if heavy { r.range(1, 20) } else { r.range(1_000, 9_000) },
                 miner: if r.chance(1, 6) { 250 } else { 3 },
                 new_txs: 0,
-                propose: r.urange(0, 4),
-                commit: r.urange(0, 4),
+                propose: if quiet { 0 } else { r.urange(0, 4) },
+                commit: if quiet { 0 } else { r.urange(0, 4) },
                 uncles: if r.chance(1, 3) { 1 } else { 0 },
                 ext_extra: 0,
                 seed: (seed << 8) ^ j ^ ((self.w.blocks.len() as u64) << 44),
@@ -2210,6 +2217,7 @@ impl PoolExec {
         }
         let Some(ti) = self.w.by_hash.get(&snap.tip_hash()).cloned() else { return };
         let st = self.w.st(ti).clone();
+        self.ev(&format!("pool at rest: {} entries (pending {}, gap {}, proposed {}) at tip n={}", d.entries.len(), d.counts.0, d.counts.1, d.counts.2, st.chain.len() - 1));
         let pooled: BTreeMap<Byte32, &pv::EntryDump> = d.entries.iter().map(|e| (e.tx.hash(), e)).collect();
         let mut spent: BTreeMap<OutPoint, Byte32> = BTreeMap::new();
         for e in &d.entries {
